@@ -150,3 +150,53 @@ func ZZ_C01_reconcile() {
 	nondet.Reach("C01.sync.duplicate-deleted", len(before) == 2 && fakeapi.PodNode(before[0]) == fakeapi.PodNode(before[1]) && c.Count("delete", "Pod") >= 1)
 	nondet.Reach("C01.sync.failed-replaced", len(before) >= 1 && before[0].Status.Phase == corev1.PodFailed && created[fakeapi.PodNode(before[0])] == 1)
 }
+
+// ZZ_C01_canaryRoleEligibility: the eligibility clauses hold for the canary replica set too: a node
+// listed in status.canary.nodes that stopped being eligible after it was selected (untolerated
+// taint, lost label) or that vanished gets no pod, the eligible canary nodes get exactly one.
+func ZZ_C01_canaryRoleEligibility() {
+	c, ds, rsNew, rsOld := zzStore(3)
+	ds.Spec.Strategy.Canary = &datadoghqv1alpha1.ExtendedDaemonSetSpecStrategyCanary{}
+	datadoghqv1alpha1.DefaultExtendedDaemonSetSpec(&ds.Spec, datadoghqv1alpha1.ExtendedDaemonSetSpecStrategyCanaryValidationModeAuto)
+	ds.Status.ActiveReplicaSet = rsOld.Name
+	nodes := []string{zzNodeName(0), zzNodeName(1)}
+	if nondet.Bool("canaryListNamesVanishedNode") {
+		nodes = append(nodes, "ghost")
+	}
+	ds.Status.Canary = &datadoghqv1alpha1.ExtendedDaemonSetStatusCanary{ReplicaSet: rsNew.Name, Nodes: nodes}
+	rsNew.Spec.Template.Spec.NodeSelector = map[string]string{"pool": "agents"}
+	for _, n := range c.Nodes {
+		n.Labels = map[string]string{"pool": "agents"}
+	}
+	// what happened to canary node0 since it was selected
+	event := nondet.String("node0.event", "nothing", "tainted-NoSchedule", "tainted-NoExecute", "label-lost")
+	switch event {
+	case "tainted-NoSchedule":
+		c.Nodes[0].Spec.Taints = []corev1.Taint{{Key: "dedicated", Value: "db", Effect: corev1.TaintEffectNoSchedule}}
+	case "tainted-NoExecute":
+		c.Nodes[0].Spec.Taints = []corev1.Taint{{Key: "dedicated", Value: "db", Effect: corev1.TaintEffectNoExecute}}
+	case "label-lost":
+		c.Nodes[0].Labels = map[string]string{}
+	}
+	if nondet.Bool("node1.hasCanaryPod") {
+		c.Pods = append(c.Pods, zzPod("canary-pod-node1", zzNodeName(1), rsNew.Name, zzHashNew, 0, corev1.PodRunning, true, nondet.Base().Add(-60*1e9)))
+	}
+	c.Pods = append(c.Pods, zzPod("active-pod-node2", zzNodeName(2), rsOld.Name, zzHashOld, 0, corev1.PodRunning, true, nondet.Base().Add(-3600*1e9)))
+	_, _ = zzReconcile(zzReconciler(c, nondet.Bool("nodeAffinitySupported")), zzNS, rsNew.Name)
+	created := map[string]int{}
+	for _, e := range c.Log {
+		if e.Kind == "Pod" && e.Verb == "create" {
+			created[e.Node]++
+		}
+	}
+	if event != "nothing" {
+		nondet.Assert("C01.canary.no-pod-on-ineligible-canary-node", created[zzNodeName(0)] == 0)
+	}
+	nondet.Assert("C01.canary.no-pod-on-vanished-node", created["ghost"] == 0)
+	nondet.Assert("C01.canary.not-outside-the-list", created[zzNodeName(2)] == 0)
+	for _, n := range created {
+		nondet.Assert("C01.canary.one-create-per-node", n == 1)
+	}
+	nondet.Observe("createdOnNode0", created[zzNodeName(0)])
+	nondet.Reach("C01.canary.eligible-canary-node-served", event == "nothing" && created[zzNodeName(0)] == 1)
+}
